@@ -533,6 +533,17 @@ impl fmt::Display for Exp {
             Exp::Number(value) => value.to_string(),
             Exp::Variable(name) => name.clone(),
             Exp::Abs(exp) => format!("abs{{ {} }}", exp),
+            // fewer than two operands leave no operator to print: an empty
+            // aggregation is its identity, a single operand keeps the block so
+            // that the text still denotes a logic formula
+            Exp::And(exps) if exps.is_empty() => "true".to_string(),
+            Exp::Or(exps) if exps.is_empty() => "false".to_string(),
+            Exp::And(exps) if exps.len() == 1 => {
+                format!("all{{ {} }}", logic_operand_to_string(&exps[0]))
+            }
+            Exp::Or(exps) if exps.len() == 1 => {
+                format!("any{{ {} }}", logic_operand_to_string(&exps[0]))
+            }
             Exp::And(exps) => exps
                 .iter()
                 .map(logic_operand_to_string)
